@@ -24,6 +24,7 @@ PROP = {
         "Wm.RouterLife.subscriber_closed_by_handle_close", "Wm.RouterLife.close_timeout_returns_error",
         "Wm.RouterLife.runhandlers_progress", "Wm.RouterLife.every_close_call_can_proceed",
         "Wm.RouterLife.close_again_returns_nil", "Wm.RouterLife.run_returns_only_after_closed",
+        "Wm.RouterLife.handle_close_cancels_context_when_close_fails",
         "Wm.RouterLife.Old.close_race_witness", "Wm.RouterLife.Old.close_skips_subscriber_witness",
     ],
     "tie_theorems": [],
@@ -50,6 +51,10 @@ PROP = {
             "a handler whose first Subscribe call(s) failed, started by a later RunHandlers, with its handleClose parked so that its loop ends "
             "last and its subscriber hands a message over when finally closed (run in a child process with the events streamed to a file: an "
             "unrecovered panic in a router goroutine becomes the event `crash`); "
+            "a router-level subscriber decorator whose Close fails before it reaches the wrapped subscriber, with a handler started by a "
+            "later RunHandlers under the caller's context (the router must still end it through the handler context: publisher closed, "
+            "no goroutine left; run in a child process); a negative CloseTimeout with a handler still running (Close must answer the "
+            "error at once, 1 and 3 callers, Run returns); "
             "seeded random programs (1-3 handlers, outcomes ok/out/err/pubfail/panic, yields). Every trace goes through the C06 monitor "
             "(clauses of the statement); traces marked for conformance must be traces of the Lean model RouterLife (subset construction). "
             "Non-trivial = a trace with at least one emitted message and one Close call.",
